@@ -524,6 +524,11 @@ def commit_hash(name):
     return hashlib.sha1(("commit:" + name).encode()).hexdigest()
 
 
+def tag_object_hash(name):
+    """hash of the tag OBJECT of an annotated tag (what `git rev-parse <tag>` prints; the commit is <tag>^{commit})"""
+    return hashlib.sha1(("tagobject:" + name).encode()).hexdigest()
+
+
 class FakeGit:
     """Interprets the git argv that conductor.utils.git issues against an in-memory commit DAG.
     state = {"mode": "none"|"repo", "commits": {name: [parent names]}, "head": name|None,
@@ -540,6 +545,9 @@ class FakeGit:
         for name in self.state.get("commits", {}):
             if commit_hash(name) == h:
                 return name
+        for tname, t in self.state.get("tags", {}).items():
+            if t.get("annotated") and tag_object_hash(tname) == h:
+                return t["commit"]        # commands that take a commit-ish peel the tag
         return None
 
     def ancestors(self, name):
@@ -570,8 +578,12 @@ class FakeGit:
 
     def resolve(self, sym):
         st = self.state
+        if sym.endswith("^{commit}"):
+            return self.resolve(sym[:-len("^{commit}")])
         if sym == "HEAD":
             return st.get("head")
+        if sym in st.get("tags", {}) and sym not in st.get("branches", {}):
+            return st["tags"][sym]["commit"]
         if sym in st.get("branches", {}):
             return st["branches"][sym]
         if len(sym) >= 4:
@@ -619,9 +631,18 @@ class FakeGit:
         if a[:2] == ["rev-parse", "--git-dir"]:
             return 0, ".git\n"
         if a[0] == "rev-parse":
-            c = self.resolve(a[1])
+            args_ = [x for x in a[1:] if x not in ("--verify", "--quiet", "-q")]
+            if len(args_) != 1 or [x for x in a[1:] if x.startswith("-") and x not in ("--verify", "--quiet", "-q")]:
+                raise SimUnsupported("fake git: %r is not modelled" % (a,))
+            sym = args_[0]
+            c = self.resolve(sym)
             if c is None:
-                return 128, a[1] + "\n"
+                if "--verify" in a and ("--quiet" in a or "-q" in a):
+                    return 1, ""
+                return 128, ("" if "--verify" in a else sym + "\n")
+            t = st.get("tags", {}).get(sym)
+            if t is not None and t.get("annotated") and sym not in st.get("branches", {}):
+                return 0, tag_object_hash(sym) + "\n"      # the tag object, not the commit it points at
             return 0, commit_hash(c) + "\n"
         dirty = st.get("dirty")
         staged = dirty == "staged"
